@@ -1,5 +1,5 @@
 import Proofs.Props.C19
-import Proofs.Props.C06
+import Model.LocalOpt
 /-!
 # C19 ∘ C06: the evaluation count of a phase whose fitness function optimizes locally
 
@@ -31,8 +31,11 @@ def baseCalls (orc : Nat → Oracle V) (eqn : Nat → Eqn V) (g : Nat) : Nat :=
   else 1
 
 theorem wrappedCost_eq (base : List V → Key) (orc : Nat → Oracle V) (eqn : Nat → Eqn V) (g : Nat) :
-    wrappedCost base orc eqn g = baseCalls orc eqn g :=
-  C06.call_count base (orc g) (eqn g)
+    wrappedCost base orc eqn g = baseCalls orc eqn g := by
+  -- the statement of `C06.call_count`, re-proved here so that this file depends on the model
+  -- `LocalOpt.call` only and not on the C06 obligations about `EquationRegressor.fit`
+  unfold wrappedCost baseCalls call optimize
+  by_cases h : (eqn g).needsOpt = true <;> by_cases h0 : (eqn g).numParams = 0 <;> simp [h, h0]
 
 /-- Serial phase with a locally optimizing fitness function: the counter advances by exactly the
 number of base-fitness invocations, summed over the individuals that were due. -/
